@@ -27,6 +27,10 @@ func checkC03(c *Ctx) {
 	if nss < 10 {
 		c.Undecided("SLOT-BY-SEARCH", "scan-count", 0, fmt.Sprintf("only %d in-place stores into neigh/br seen", nss))
 	}
+	c.Decides("USE-AFTER-DEL: in package tree a branch variable obtained from node x (x.br[i], x.Edges()[i], x.ParentEdge(), range over x.br) is not used after t.delNode(x), which sets both ends of every branch of x to nil (unconnectNode is the helper that keeps the branches)")
+	nud, _ := c.useAfterDel("USE-AFTER-DEL", c.AllFuncs("tree"), "every branch links a parent to a child (both ends set)")
+	c.Extra["delnode_sites"] = nud
+	c.Floor("USE-AFTER-DEL", 5)
 	c.Decides("SNAPSHOT: a loop of package tree over a snapshot (make+copy) of a node's neigh or br reads the node's other parallel slice at the loop index only through a snapshot as well")
 	ns, _ := c.snapshotParallel("SNAPSHOT", c.AllFuncs("tree"))
 	c.Extra["snapshot_loops"] = ns
